@@ -50,6 +50,8 @@ type peer struct {
 	feedCh  chan []byte
 	in      chan elem
 	pw      *io.PipeWriter
+	dataErr   bool   // answer data IQs with an error
+	closeMode string // how the peer answers <close/>: "" result, "err" error, "silent" not at all
 	openOK  bool   // answer of the peer to an <open/> request
 	packets []pkt  // data stanzas tapped from the session
 	replies map[string]string
@@ -187,12 +189,22 @@ func (p *peer) handle(e elem) {
 		}
 	case name == "iq" && c.XMLName.Local == "data":
 		p.packets = append(p.packets, pkt{c.Seq, c.SID, c.Data})
-		p.feed(fmt.Sprintf(`<iq xmlns="jabber:client" type="result" id="%s" from="%s"/>`, e.ID, peerJID))
+		if p.dataErr {
+			p.feed(fmt.Sprintf(`<iq xmlns="jabber:client" type="error" id="%s" from="%s"><error type="cancel"><item-not-found xmlns="urn:ietf:params:xml:ns:xmpp-stanzas"/></error></iq>`, e.ID, peerJID))
+		} else {
+			p.feed(fmt.Sprintf(`<iq xmlns="jabber:client" type="result" id="%s" from="%s"/>`, e.ID, peerJID))
+		}
 	case name == "message" && c.XMLName.Local == "data":
 		p.packets = append(p.packets, pkt{c.Seq, c.SID, c.Data})
 	case name == "iq" && c.XMLName.Local == "close":
 		p.closes++
-		p.feed(fmt.Sprintf(`<iq xmlns="jabber:client" type="result" id="%s" from="%s"/>`, e.ID, peerJID))
+		switch p.closeMode {
+		case "err":
+			p.feed(fmt.Sprintf(`<iq xmlns="jabber:client" type="error" id="%s" from="%s"><error type="cancel"><item-not-found xmlns="urn:ietf:params:xml:ns:xmpp-stanzas"/></error></iq>`, e.ID, peerJID))
+		case "silent":
+		default:
+			p.feed(fmt.Sprintf(`<iq xmlns="jabber:client" type="result" id="%s" from="%s"/>`, e.ID, peerJID))
+		}
 	}
 }
 
@@ -741,4 +753,108 @@ func runStale(r *common.Run) {
 	default:
 		r.Line("reader P3,R,R,W,K,P3,W,K", fmt.Sprintf("delivered=%d eof=0 reading=0", len(first)+(len(obs)-strings.LastIndex(obs, ",D")-2)/2))
 	}
+}
+
+// runCloseFail: Close fails at one of its steps (or not at all); whatever it
+// returns, a Read that was pending or is issued afterwards must return and a
+// later data packet must be refused.
+func runCloseFail(r *common.Run, fault string, pending bool) {
+	p, err := newPeer()
+	if err != nil {
+		return
+	}
+	defer p.stop()
+	ln := p.h.Listen(p.rs.S)
+	acc := make(chan net.Conn, 1)
+	go func() { c, _ := ln.Accept(); acc <- c }()
+	p.feed(fmt.Sprintf(`<iq xmlns="jabber:client" type="set" id="o1" from="%s" to="me@example.net/h"><open xmlns="http://jabber.org/protocol/ibb" sid="S" block-size="4" stanza="iq"/></iq>`, peerJID))
+	var nc net.Conn
+	select {
+	case nc = <-acc:
+	case <-time.After(watchdog):
+		return
+	}
+	conn := nc.(*ibb.Conn)
+	p.pump(func() bool { return p.replies["o1"] != "" })
+	type res struct {
+		n   int
+		err error
+	}
+	rch := make(chan res, 1)
+	read := func() {
+		go func() {
+			b := make([]byte, 8)
+			k, err := conn.Read(b)
+			rch <- res{k, err}
+		}()
+	}
+	if pending {
+		read()
+		time.Sleep(2 * time.Millisecond) // let it reach its wait
+	}
+	switch fault {
+	case "flush":
+		p.dataErr = true
+		if _, err := conn.Write([]byte("abc")); err != nil {
+			r.Notes = append(r.Notes, "close-fail setup: Write failed")
+			return
+		}
+	case "send":
+		p.rs.Out.Fail = fmt.Errorf("verif: connection broken")
+	case "reply":
+		p.closeMode = "err"
+	case "deadline":
+		p.closeMode = "silent"
+		conn.SetWriteDeadline(time.Now().Add(150 * time.Millisecond))
+	}
+	done := make(chan error, 1)
+	go func() { done <- conn.Close() }()
+	var cerr error
+	line := "close " + fault
+	lines := []string{r.Prop + " " + line, fmt.Sprintf("#a Read was pending before Close: %v", pending)}
+	if !p.pump(func() bool {
+		select {
+		case cerr = <-done:
+			return true
+		default:
+			return false
+		}
+	}) {
+		r.Line(line, "ret=STALL")
+		r.Fail("close", "close-does-not-return:"+fault, lines, "Close did not return")
+		return
+	}
+	p.rs.Out.Fail = nil
+	ret := "ok"
+	if cerr != nil {
+		ret = "err"
+	}
+	if !pending {
+		read()
+	}
+	rd := "BLOCK"
+	select {
+	case x := <-rch:
+		rd = "EOF"
+		if x.n > 0 {
+			rd = "DATA"
+		}
+	case <-time.After(watchdog):
+		r.Fail("close", "read-blocks-after-close:"+fault, lines, fmt.Sprintf("Close returned %v; Read (pending before Close: %v) still blocks: the receiving side was not taken down", cerr, pending))
+	}
+	data := "skip"
+	if fault != "send" {
+		p.dataErr = false
+		p.feed(fmt.Sprintf(`<iq xmlns="jabber:client" type="set" id="late" from="%s"><data xmlns="http://jabber.org/protocol/ibb" seq="0" sid="S"></data></iq>`, peerJID))
+		p.pump(func() bool { return p.replies["late"] != "" })
+		data = replyCode[p.replies["late"]]
+		if data == "" {
+			data = "other:" + p.replies["late"]
+		}
+		if data != "inf" {
+			r.Fail("refuse", "data-accepted-after-close:"+fault, lines, "a data packet for the closed stream was answered "+data)
+		}
+	}
+	r.Line(line, fmt.Sprintf("ret=%s read=%s data=%s", ret, rd, data))
+	r.Case(line+fmt.Sprint(pending), true, "close-fail")
 }
